@@ -198,3 +198,32 @@ Proof. vm_compute. reflexivity. Qed.
 (* ... also when the parameter is reached through a virtual alias (fix 6efa7de): named after the alias *)
 Example w_par_via_alias : run_pass2 (w_par_input true) = Rejected2 [Err KNoncomposite "m.emb" 4 "v" []].
 Proof. vm_compute. reflexivity. Qed.
+
+(* import "o.emb" as imp             (line 1)
+   [foo: Bar.BAZ]                    (line 2; module-level attribute)
+   struct Foo:                       (line 3)
+     0 [+1]  UInt  x                 (line 4)
+     let a = imp                     (line 5; only in the `bad` variant)
+   enum Bar:                         (line 6)
+     BAZ = 1                         (line 7) *)
+Definition w_modv_input (bad : bool) : input :=
+  let s := Site "m.emb" ["Foo"] None in
+  Input [Module "m.emb" [IDef "" "" 0; IDef "imp" "o.emb" 1]
+                [TyDef "Foo" 3 [] (BStruct ([FDef "x" 4 None (FPhys (FTAtomic 1))]
+                                            ++ if bad then [FDef "a" 5 None (FVirtAlias 0)] else [])) [];
+                 TyDef "Bar" 6 [] (BEnum [VDef "BAZ" 7]) []];
+         Module "o.emb" [IDef "" "" 0] [TyDef "Baz" 1 [] (BStruct []) []];
+         w_prelude]
+        [RefSite (Site "m.emb" [] None) (Ref [("Bar", 2%N); ("BAZ", 2%N)] false 2);
+         RefSite s (Ref [("UInt", 4%N)] false 4)]
+        (if bad then [FRef s [("imp", 5%N)]] else []).
+
+(* the reference of the module-level attribute is resolved in the module's scope *)
+Example w_modv_attribute_resolved :
+  run_pass1 (w_modv_input false) = Resolved1 [CN "m.emb" ["Bar"; "BAZ"]; CN "" ["UInt"]] [].
+Proof. vm_compute. reflexivity. Qed.
+
+(* an import alias used as a value is rejected: it names a module, not an object *)
+Example w_modv_alias_rejected :
+  run_pass1 (w_modv_input true) = Rejected1 4 [Err KModule "m.emb" 5 "imp" []].
+Proof. vm_compute. reflexivity. Qed.
